@@ -283,12 +283,17 @@ URI_Obs(u) == [URIType |-> u.type, Scheme |-> PFObs(u.scheme), User |-> PFObs(u.
 
 PanicRes == [panic |-> TRUE]
 
+\* the exported fields exactly as stored (offsets of empty fields included): read by the Decl predicates
+URI_Raw(u) == [Scheme |-> <<u.scheme.o, u.scheme.l>>, User |-> <<u.user.o, u.user.l>>, Pass |-> <<u.pass.o, u.pass.l>>,
+               Host |-> <<u.host.o, u.host.l>>, Port |-> <<u.port.o, u.port.l>>, Params |-> <<u.params.o, u.params.l>>,
+               Headers |-> <<u.headers.o, u.headers.l>>, URIType |-> u.type, PortNo |-> u.portno]
+
 URI_Res(buf) ==
   LET p == URI_Parse(buf) IN
     IF p.err = PANIC THEN PanicRes
-    ELSE IF p.err # OK THEN [err |-> p.err, offs |-> p.offs, uri |-> URI_Obs(p.uri)]
+    ELSE IF p.err # OK THEN [err |-> p.err, offs |-> p.offs, uri |-> URI_Obs(p.uri), raw |-> URI_Raw(p.uri)]
     ELSE IF IsPanicF(URI_Short(p.uri)) \/ IsPanicF(URI_Long(p.uri)) \/ ~URI_FlatOk(buf, p.uri) THEN PanicRes
-    ELSE [err |-> p.err, offs |-> p.offs, uri |-> URI_Obs(p.uri),
+    ELSE [err |-> p.err, offs |-> p.offs, uri |-> URI_Obs(p.uri), raw |-> URI_Raw(p.uri),
           Short |-> PFObs(URI_Short(p.uri)), Long |-> PFObs(URI_Long(p.uri)),
           Flat |-> URI_Flat(buf, p.uri), Trunc |-> URI_Obs(URI_Truncate(p.uri))]
 
@@ -298,5 +303,7 @@ AdjustOffs_Res(buf, offs, len) ==
     ELSE IF p.err # OK THEN [err |-> p.err]
     ELSE LET a == URI_AdjustOffs(p.uri, [o |-> Trunc(offs), l |-> Trunc(len)]) IN
            IF a.panic THEN PanicRes
-           ELSE [err |-> p.err, ok |-> a.ok, uri |-> URI_Obs(a.uri)]
+           ELSE IF IsPanicF(URI_Short(a.uri)) \/ IsPanicF(URI_Long(a.uri)) THEN PanicRes
+           ELSE [err |-> p.err, before |-> URI_Raw(p.uri), ok |-> a.ok, uri |-> URI_Obs(a.uri), raw |-> URI_Raw(a.uri),
+                 Short |-> PFObs(URI_Short(a.uri)), Long |-> PFObs(URI_Long(a.uri))]
 =============================================================================
